@@ -85,6 +85,8 @@ def check_c03(r):
     tree = r["tree"]
     if tree is None:
         return probs
+    token_spans = [(r.pos_marker.templated_slice.start, r.pos_marker.templated_slice.stop) for r in tree.raw_segments
+                   if not r.is_meta and r.pos_marker is not None and r.pos_marker.templated_slice.stop - r.pos_marker.templated_slice.start > 1]
     stack = [tree]
     while stack:
         node = stack.pop()
@@ -96,15 +98,23 @@ def check_c03(r):
         if any(k is None for k in ks) or pm is None:
             probs.append(("no-position", "node %s or a child has no position" % node.get_type()))
             continue
-        t0, t1 = ks[0].templated_slice.start, ks[-1].templated_slice.stop
+        t0, t1 = min(k.templated_slice.start for k in ks), max(k.templated_slice.stop for k in ks)
         if (pm.templated_slice.start, pm.templated_slice.stop) != (t0, t1):
             probs.append(("span-templated", "node %s templated span %r != children %r" % (node.get_type(), _sl(pm.templated_slice), (t0, t1))))
         s0, s1 = min(k.source_slice.start for k in ks), max(k.source_slice.stop for k in ks)
         if (pm.source_slice.start, pm.source_slice.stop) != (s0, s1):
             probs.append(("span-source", "node %s source span %r != hull of children %r" % (node.get_type(), _sl(pm.source_slice), (s0, s1))))
-        for x, y in zip(ks, ks[1:]):
+        for (x, y), (kx, ky) in zip(zip(ks, ks[1:]), zip(kids, kids[1:])):
             if x.templated_slice.stop > y.templated_slice.start:
-                probs.append(("child-order", "children of %s out of positional order" % node.get_type()))
+                # a zero-length source-only placeholder whose rendered position lies strictly inside the following raw token (the token was
+                # glued together across a whitespace-consuming tag) cannot be placed anywhere else: classified separately
+                def in_token(pm_, seg_):
+                    return seg_.is_meta and pm_.templated_slice.start == pm_.templated_slice.stop and any(
+                        a < pm_.templated_slice.start < b for a, b in token_spans)
+                inside = in_token(x, kx) or in_token(y, ky)
+                probs.append(("child-order-placeholder-inside-token" if inside else "child-order",
+                              "children of %s out of positional order (%s %r at %r before %s %r at %r)" % (
+                                  node.get_type(), kx.get_type(), kx.raw[:10], _sl(x.templated_slice), ky.get_type(), ky.raw[:10], _sl(y.templated_slice))))
                 break
         if not node.is_type("file", "unparsable"):
             for end in (kids[0], kids[-1]):
@@ -180,4 +190,29 @@ def parse_case(dialect, label, sql, want_cert, parse_statistics=False):
             truthy = (ms.stop > ms.start) or bool(cap["m"].insert_segments)
             start_ok = (not truthy) or first_code is None or ms.start == first_code
             out["cert"] = (term, len(segs), leaves == list(range(ms.start, ms.stop)), ms.start, ms.stop, start_ok)
+    return out
+
+
+def tparse_case(templater, style, label, source):
+    """Parse a TEMPLATED source through the linter (render, lex, parse) and run the C03 tree checks on the tree of the first variant."""
+    import logging
+    logging.disable(logging.CRITICAL)
+    from harness import fixcheck
+    out = {"exc": None, "c03": [], "ntokens": 0, "unparsable": None, "templated": False, "tmp": 0}
+    try:
+        lnt = fixcheck.linter("ansi", templater, style, None)
+        parsed = lnt.parse_string(source, fname="t.sql")
+        out["tmp"] = sum(1 for v in parsed.violations if v.rule_code() == "TMP")
+        tree = parsed.tree
+        if tree is None:
+            return out
+        out["ntokens"] = len(tree.raw_segments)
+        out["unparsable"] = sum(1 for _ in tree.iter_unparsables())
+        tf = parsed.root_variant().templated_file
+        out["templated"] = len(tf.sliced_file) > 1
+        out["loops"] = len(set(s.source_slice.start for s in tf.sliced_file)) < len(tf.sliced_file)
+        out["c03"] = check_c03({"tree": tree})
+    except BaseException as e:  # noqa
+        import traceback
+        out["exc"] = "%s: %s @ %s" % (type(e).__name__, str(e)[:200], traceback.extract_tb(e.__traceback__)[-1][:3])
     return out
